@@ -336,14 +336,14 @@ def is_str_token(t):
     return isinstance(t, str) and t[:1] == "u" and (len(t) == 1 or re.fullmatch(r"u[0-9a-f]+(\.[0-9a-f]+)*", t))
 
 
-def case_chars(cmds):
+def case_chars(cmds, allow_sigma=False):
     """every character occurring in a string argument (plus the stop words'), closed under lower()"""
     chars = set("".join(stops()))
     for c in cmds:
         for t in c[1:]:
             if is_str_token(t):
                 chars.update(dec(t))
-    if "\u03a3" in chars:
+    if "\u03a3" in chars and not allow_sigma:
         raise ValueError("U+03A3 in a generated case")
     return _closure(sorted(chars))
 
